@@ -184,7 +184,8 @@ def replay_prune(r):
     from leuvenmapmatching.util.segment import Segment
     import random
     model = r.model or {}
-    W, E = int(val(model, 'W', 1)), int(val(model, 'E', 0))
+    # the solver's model may use huge sizes; the defect (if real) shows on small layers as well
+    W, E = max(1, min(int(val(model, 'W', 1)), 4)), max(0, min(int(val(model, 'E', 0)), 3))
     with_thr = '[thr' in r.ob.name
     thr = val(model, 'thr', -1.0) if with_thr else None
     rnd = random.Random(0)
